@@ -12,7 +12,7 @@ INV_PROP = {'OneProposalPerView': 'C03', 'OneResponsePerView': 'C03', 'OneCommit
             'CommitEvidence': 'C04', 'ViewEvidence': 'C04', 'ResponseEvidence': 'C04', 'OneDecision': 'C05', 'PreBlockOnce': 'C07',
             'PhaseOrder': 'C07', 'AmevOff': 'C07', 'TimerOK': 'C10', 'Silent': 'C13', 'HeldTxsBelong': 'C11', 'PrimaryOK': 'C06',
             'PreCertificate': 'C02', 'Certificate': 'C02', 'ResetClean': 'C05', 'EarlyUsed': 'C05',
-            'MinGap': 'C16', 'EmptyAfterMax': 'C16', 'ExactGapWhenOff': 'C16', 'NotLate': 'C16', 'Prompt': 'C16', 'SubscribeOnlyIfOn': 'C16',
+            'SilentStep': 'C13', 'MinGap': 'C16', 'EmptyAfterMax': 'C16', 'ExactGapWhenOff': 'C16', 'NotLate': 'C16', 'Prompt': 'C16', 'SubscribeOnlyIfOn': 'C16',
             'Answers': 'C12', 'Termination': 'C09', 'ViewBound': 'C09', 'TimersArmed': 'C10',
             'NeverAsks': 'C08', 'View0': 'C08', 'Decides': 'C08', 'TheBlock': 'C08'}
 
@@ -60,6 +60,13 @@ NODE_FAMILIES = {
         node_cfg('echo-v0', me=1, maxview=0, family=('core', 'echo'), invs=ECHO_INVS, props=('PreCertificate',)),
         node_cfg('echo-primary-v0', me=2, maxview=0, family=('core', 'echo'), invs=ECHO_INVS, props=('PreCertificate',)),
         node_cfg('echo-amev-v0', me=1, amev=True, maxview=0, family=('core', 'echo'), invs=[i for i in ECHO_INVS if i != 'PhaseOrder'], props=('PreCertificate',)),   # PhaseOrder speaks about this incarnation's own pre-commit
+    ],
+    # the watch-only flag is set while the validator runs (family "flip")
+    'flip': [
+        node_cfg('flip-v0', me=1, maxview=0, family=('core', 'flip'), props=('CommitLock', 'PreCertificate', 'SilentStep')),
+        node_cfg('flip-primary-v0', me=2, maxview=0, family=('core', 'flip'), props=('CommitLock', 'PreCertificate', 'SilentStep')),
+        node_cfg('flip-amev-v0', me=1, amev=True, maxview=0, family=('core', 'flip'), props=('CommitLock', 'PreCertificate', 'SilentStep')),
+        node_cfg('flip-v1', me=1, maxview=1, family=('core', 'flip'), props=('CommitLock', 'PreCertificate', 'SilentStep')),
     ],
     'cover': [
         node_cfg('amev-v0s', me=1, amev=True, maxview=0),
@@ -391,7 +398,7 @@ def design(tier, wd, vh=None, names=None, module='MC_Node'):
     elif module == 'MC_Tx':
         items = [('fresh', i) for i in TX_FAMILIES]
     else:
-        items = [('fresh', i) for i in NODE_FAMILIES['quick']] + [('cached', i) for i in NODE_FAMILIES['cached'] + NODE_FAMILIES['echo']]
+        items = [('fresh', i) for i in NODE_FAMILIES['quick']] + [('cached', i) for i in NODE_FAMILIES['cached'] + NODE_FAMILIES['echo'] + NODE_FAMILIES['flip']]
         if tier != 'quick':
             items += [('cached', i) for i in NODE_FAMILIES['thorough']]
     if names:
